@@ -473,7 +473,9 @@ func (c *Checker) checkReadFromStep() {
 		}
 	}
 	isSym := func(name string) func(v Val) (bool, string) {
-		return func(v Val) (bool, string) { return showVal(v) == name, "returned error is " + showVal(v) + ", expected " + name }
+		return func(v Val) (bool, string) {
+			return showVal(v) == name, "returned error is " + showVal(v) + ", expected " + name
+		}
 	}
 	cases := []cse{
 		{"reader fails (not end of stream) inside a packet", []Bit{bnot(erNil), bnot(erEOF), bnot(erUEOF), bnot(full), some}, true, is(er, "the reader's error")},
